@@ -447,7 +447,10 @@ pub fn explorer_worker(args: &[String]) -> i32 {
             violations.push(("C19/explorer/status-unique-count-decreases".into(), json!({"status": v})));
         }
         last_unique = unique;
-        if unique > reach.count as u64 || total < unique {
+        // (the two counters are read one after the other while workers may be running, so
+        // state_count >= unique_state_count is only demanded of a status that reports `done`)
+        let quiescent = v["done"].as_bool() == Some(true);
+        if unique > reach.count as u64 || (quiescent && total < unique) {
             violations.push(("C19/explorer/status-counts-impossible-for-the-model".into(), json!({"status": v, "reachable": reach.count})));
         }
         let listed: Vec<String> = v["properties"].as_array().map(|a| a.iter().map(|p| p[1].as_str().unwrap_or("").to_string()).collect()).unwrap_or_default();
